@@ -354,7 +354,10 @@ let () =
               end
           | C ("mkBCase", _) as sx ->
               let c = c_bcase sx in
-              if check_bcase c then ()
+              (* for definition-tree cases the first three mask characters select the field groups:
+                 help-only, completion-only, dispatch-only fields (see Run/Check.v, bmask) *)
+              let bm = { bm_help = mask.m_err; bm_compl = mask.m_args; bm_req = mask.m_msg } in
+              if check_bcase_with bm c then ()
               else begin incr bad; Printf.printf "MISMATCH %d %s\n" !i (show_bdiff c) end
           | C ("mkDCase", _) as sx ->
               let c = c_dcase sx in
